@@ -4,6 +4,7 @@ package swap
 
 import (
 	"context"
+	"encoding/json"
 	"reflect"
 	"sort"
 	"time"
@@ -133,4 +134,30 @@ func VerifValidateClaimInvoice(d *SwapData, msat uint64, cltv int64) error {
 		return err
 	}
 	return validateClaimInvoice(msat, cltv, d.GetClaimAmount(), p)
+}
+
+// VerifSwapView is a read-only snapshot of one active in-memory swap.
+type VerifSwapView struct {
+	Scid    string `json:"scid"`
+	Current string `json:"current"`
+	Peer    string `json:"peer"`
+	Json    []byte `json:"-"`
+}
+
+// VerifSnapshot returns a view of every swap in the active registry
+// (call at quiescence: it reads the state machines without their mutex).
+func (s *SwapService) VerifSnapshot() map[string]VerifSwapView {
+	s.RLock()
+	defer s.RUnlock()
+	out := map[string]VerifSwapView{}
+	for id, sw := range s.activeSwaps {
+		v := VerifSwapView{Current: string(sw.Current)}
+		if sw.Data != nil {
+			v.Scid = sw.Data.GetScid()
+			v.Peer = sw.Data.PeerNodeId
+		}
+		v.Json, _ = json.Marshal(sw)
+		out[id] = v
+	}
+	return out
 }
